@@ -248,7 +248,7 @@ namespace
 
   // ---------------------------------------------------------------------------------------------
   // Cuthill-McKee reference: level structure with stable degree sort
-  struct CmkRef { IV perm; IV layers; };
+  struct CmkRef { IV perm; IV layers; bool multi_hazard = false; };
   CmkRef ref_cmk(const Rel& g, bool reverse, CuthillMcKee::RootType rtp, CuthillMcKee::SortType stp)
   {
     const Index n = g.nd;
@@ -276,6 +276,9 @@ namespace
         if(stp == CuthillMcKee::SortType::desc) std::stable_sort(next.begin(), next.end(), [&](Index a, Index b){ return deg[a] > deg[b]; });
         levels.push_back(next);
       }
+      // a further component follows and this one ends with a level of >= 2 nodes
+      if(levels.size() >= 2 && levels.back().size() >= 2 && out.perm.size() + [&]{ Index s = 0; for(auto& l : levels) s += Index(l.size()); return s; }() < n)
+        out.multi_hazard = true;
       if(reverse) { std::reverse(levels.begin(), levels.end()); for(auto& l : levels) std::reverse(l.begin(), l.end()); }
       for(auto& l : levels) { for(Index v : l) out.perm.push_back(v); out.layers.push_back(Index(out.perm.size())); }
     }
@@ -353,10 +356,12 @@ namespace
   const char* KEY_SORTED_EMPTY = "graph.render *_sorted of an adjactor without adjacencies aborts (sort_indices asserts non-empty)";
   const char* KEY_COMPOSITE_ADJ = "composite-adjactor: first image node of a domain node has an empty second adjacency list";
   const char* KEY_CMK_MAXDEG = "cmk.maximum_degree root with a degree-0 node: no root found (abort)";
+  const char* KEY_ASIS_NULL = "graph.render as_is of an adjactor without adjacencies binds a reference to null (&_image_idx[0] on an empty vector; UBSan only, benign)";
+  const char* KEY_CMK_MULTI = "cmk: several components, a non-last component ends with a level of >= 2 nodes (root of the next component overwrites a position)";
   const char* KEY_PERMUTE_IDX = "graph.permute_indices asserts num_indices == perm size instead of num_nodes_image";
   const char* KEY_EMPTY_PERM_INV = "permutation: in-place inverse apply of the empty permutation runs out of bounds";
 
-  struct Hazards { int sorted_empty, composite_adj, cmk_maxdeg, permute_idx, empty_perm_inv; };
+  struct Hazards { int sorted_empty, composite_adj, cmk_maxdeg, cmk_multi, permute_idx, empty_perm_inv, asis_null; };
 
   // --------------------------------------------------------------------------------------------- part A
   void check_single(verif::Ctx& c, const Rel& r, const Hazards& hz)
@@ -374,7 +379,9 @@ namespace
     {
       const bool sorted_rt = (rt == RenderType::as_is_sorted || rt == RenderType::injectify_sorted);
       const Rel ref = ref_render(rt, r);
+      const bool asis_rt = (rt == RenderType::as_is || rt == RenderType::as_is_sorted);
       if(sorted_rt && nidx == 0 && hz.sorted_empty != 0) { c.excluded("sorted render of an adjactor without adjacencies (reported once as finding)"); }
+      else if(asis_rt && nidx == 0 && r.nd > 0 && hz.asis_null != 0) { c.excluded("as_is render of an adjactor without adjacencies under UBSan (reported once as finding)"); }
       else
       {
         Graph h(rt, g);
@@ -405,13 +412,14 @@ namespace
       c.check(read_graph(ma, got, err) && got == r, "graph.self-move-assign", [&]{ return err + str(got); });
     }
     // sort_indices keeps every adjacency list as a multiset
-    if(nidx > 0)
+    if(nidx > 0 || hz.sorted_empty == 0)
     {
       Graph s = g.clone(); s.sort_indices();
       Rel want = r; for(auto& x : want.l) std::sort(x.begin(), x.end());
       Rel got; c.check(read_graph(s, got, err) && got == want, "graph.sort_indices", [&]{ return err + str(got); });
     }
-    else c.excluded("sort_indices()/permute_indices() on a graph without indices (asserted precondition)");
+    else c.excluded("sort_indices() on a graph without domain pointer / without indices while the sorted-render probe fails");
+    if(nidx == 0) c.excluded("permute_indices() on a graph without indices (asserted precondition)");
     // serialisation round trip
     {
       std::vector<char> buf = g.serialize();
@@ -460,7 +468,9 @@ namespace
     {
       const bool sorted_rt = (rt == RenderType::as_is_sorted || rt == RenderType::injectify_sorted);
       const Rel ref = ref_render(rt, comp);
+      const bool asis_null = (rt == RenderType::as_is || rt == RenderType::as_is_sorted) && nidx == 0 && r1.nd > 0 && hz.asis_null != 0;
       if(sorted_rt && nidx == 0 && hz.sorted_empty != 0) c.excluded("sorted render of an adjactor without adjacencies (reported once as finding)");
+      else if(asis_null) c.excluded("as_is render of an adjactor without adjacencies under UBSan (reported once as finding)");
       else
       {
         Graph h(rt, g1, g2);
@@ -470,7 +480,7 @@ namespace
         c.count("composite_renders");
       }
       if(ca_hazard && hz.composite_adj != 0) c.excluded("CompositeAdjactor whose first image node has an empty second list (reported once as finding)");
-      else if(!(sorted_rt && nidx == 0 && hz.sorted_empty != 0))
+      else if(!(sorted_rt && nidx == 0 && hz.sorted_empty != 0) && !asis_null)
       {
         CompositeAdjactor<Graph, Graph> ca(g1, g2);
         Graph h(rt, ca);
@@ -539,6 +549,8 @@ namespace
     for(int ri = 0; ri < 3; ++ri) for(int si = 0; si < 3; ++si) for(int rev = 0; rev < 2; ++rev)
     {
       if(ri == 2 && has_deg0 && hz.cmk_maxdeg != 0) { c.excluded("maximum_degree root with a degree-0 node (reported once as finding)"); continue; }
+      const CmkRef ref = ref_cmk(g, rev != 0, all_root[ri], all_sort[si]);
+      if(ref.multi_hazard && hz.cmk_multi != 0) { c.excluded("several components with a non-last component ending in a level of >= 2 nodes (reported once as finding)"); continue; }
       std::vector<Index> layers;
       Permutation P = CuthillMcKee::compute(layers, gr, rev != 0, all_root[ri], all_sort[si]);
       auto opts = [&]{ return std::string(" root=") + root_name[ri] + " sort=" + sort_name[si] + " reverse=" + std::to_string(rev); };
@@ -546,7 +558,6 @@ namespace
       c.check(bij, "cmk.bijection " + kind, [&]{ return opts() + " perm=" + str(IV(P.get_perm_pos(), P.get_perm_pos() + P.size())); });
       c.count("cmk_runs");
       if(!bij) continue;
-      CmkRef ref = ref_cmk(g, rev != 0, all_root[ri], all_sort[si]);
       std::string err;
       c.check(perm_consistent(P, ref.perm, err), "cmk.level-structure order / swap array " + kind, [&]{ return opts() + " " + err; });
       c.check(layers == ref.layers, "cmk.layers " + kind, [&]{ return opts() + " layers=" + str(layers) + " expected " + str(ref.layers); });
@@ -594,9 +605,9 @@ int main(int argc, char** argv)
   spec.bounds_thorough = "A: as quick plus lists<=3 for nd,ni<=2 ... ; B: R1 nd<=3; C: length<=7, concat length<=5; D: all loop masks n<=5, symmetric loop-free n=6 (colouring orders: all 720), directed n<=4; E: as quick; F: full closure (depth<=9) on <=3x3";
   spec.assumptions = {
     "reference = list/set based definitions written in the harness (render types, composition, permutation as bijection y[i]=x[P(i)], level-structure Cuthill-McKee with stable degree sort)",
-    "excluded (asserted preconditions): Permutation(n=0,...), CuthillMcKee on 0 nodes, explicit sort_indices()/permute_indices() on a graph without indices, composite render with mismatching inner dimensions, colouring arrays with colour gaps",
+    "excluded (asserted preconditions): Permutation(n=0,...), CuthillMcKee on 0 nodes, explicit permute_indices() on a graph without indices, sort_indices() on a graph without domain pointer, composite render with mismatching inner dimensions, colouring arrays with colour gaps",
     "colouring is checked on symmetric relations only (the greedy algorithm looks at lower-numbered neighbours); self loops are allowed and ignored for properness",
-    "five defect classes are probed once in a forked child; if a probe fails it is reported under a stable key and the inputs of that class are counted as excluded"};
+    "seven defect classes (one of them only visible under UBSan) are probed once in a forked child; if a probe fails it is reported under a stable key and the inputs of that class are counted as excluded"};
   spec.max_samples = 8;
 
   return verif::run(spec, argc, argv, [&](verif::Ctx& c) {
@@ -608,7 +619,7 @@ int main(int argc, char** argv)
     hz.sorted_empty = probe([]{
       Rel r; r.nd = 1; r.ni = 1; r.l.assign(1, IV());
       Graph g = make_graph(r, false);
-      Graph h(RenderType::as_is_sorted, g);
+      Graph h(RenderType::injectify_sorted, g);
       Graph h2(RenderType::injectify_sorted, g, g);
       return h.get_num_nodes_domain() == 1 && h.get_num_indices() == 0 && h2.get_num_indices() == 0; });
     hz.composite_adj = probe([]{
@@ -624,6 +635,11 @@ int main(int argc, char** argv)
       Graph g = make_graph(r, false);
       Permutation P = CuthillMcKee::compute(g, false, CuthillMcKee::RootType::maximum_degree, CuthillMcKee::SortType::standard);
       return P.size() == 1 && P.get_perm_pos()[0] == 0; });
+    hz.cmk_multi = probe([]{
+      Rel r; r.nd = 4; r.ni = 4; r.l = Lists{IV{1, 2}, IV{0}, IV{0}, IV{}};
+      Graph g = make_graph(r, false);
+      Permutation P = CuthillMcKee::compute(g, false, CuthillMcKee::RootType::standard, CuthillMcKee::SortType::standard);
+      return P.size() == 4 && is_bijection(P.get_perm_pos(), 4); });
     hz.permute_idx = probe([]{
       Rel r; r.nd = 1; r.ni = 2; r.l = Lists{IV{1}};
       Graph g = make_graph(r, false);
@@ -637,12 +653,25 @@ int main(int argc, char** argv)
       P.apply(x, true);
       return x[0] == 42; });
 
-    if(c.want()) { c.desc([]{ return std::string("probe: Graph(as_is_sorted, 1x1 graph without adjacencies)"); });
+    hz.asis_null = 0;
+#ifdef VERIF_ASAN
+    hz.asis_null = probe([]{
+      Rel r; r.nd = 1; r.ni = 1; r.l.assign(1, IV());
+      Graph g = make_graph(r, false);
+      Graph h(RenderType::as_is, g);
+      Graph h2(RenderType::as_is, g, g);
+      return h.get_num_nodes_domain() == 1 && h.get_num_indices() == 0 && h2.get_num_indices() == 0; });
+#endif
+    if(c.want()) { c.desc([]{ return std::string("probe (sanitizer build only): Graph(as_is, 1x1 graph without adjacencies)"); });
+      c.check(hz.asis_null == 0, KEY_ASIS_NULL, [&]{ return std::string(probe_txt(hz.asis_null)); }); }
+    if(c.want()) { c.desc([]{ return std::string("probe: Graph(injectify_sorted, 1x1 graph without adjacencies)"); });
       c.check(hz.sorted_empty == 0, KEY_SORTED_EMPTY, [&]{ return std::string(probe_txt(hz.sorted_empty)); }); }
     if(c.want()) { c.desc([]{ return std::string("probe: CompositeAdjactor R1=1x2{[0,1]} R2=2x1{[] [0]} iterated through image_begin/image_end"); });
       c.check(hz.composite_adj == 0, KEY_COMPOSITE_ADJ, [&]{ return std::string(probe_txt(hz.composite_adj)); }); }
     if(c.want()) { c.desc([]{ return std::string("probe: CuthillMcKee::compute(1-node graph without edges, root=maximum_degree)"); });
       c.check(hz.cmk_maxdeg == 0, KEY_CMK_MAXDEG, [&]{ return std::string(probe_txt(hz.cmk_maxdeg)); }); }
+    if(c.want()) { c.desc([]{ return std::string("probe: CuthillMcKee::compute(4x4{[1,2] [0] [0] []}, root=standard, sort=standard, reverse=false)"); });
+      c.check(hz.cmk_multi == 0, KEY_CMK_MULTI, [&]{ return std::string(probe_txt(hz.cmk_multi)); }); }
     if(c.want()) { c.desc([]{ return std::string("probe: Graph 1x2{[1]}.permute_indices(perm [1,0])"); });
       c.check(hz.permute_idx == 0, KEY_PERMUTE_IDX, [&]{ return std::string(probe_txt(hz.permute_idx)); }); }
     if(c.want()) { c.desc([]{ return std::string("probe: Permutation().apply(x, invert=true)"); });
@@ -1025,8 +1054,13 @@ int main(int argc, char** argv)
           Rel want; want.nd = nd; want.ni = ni; want.l.assign(nd, IV());
           for(auto& pr : model) want.l[pr.first].push_back(pr.second);
           {
-            Graph g(RenderType::as_is, d); Rel got;
-            c.check(read_graph(g, got, err) && got == want, "dynamic_graph.history render as_is", [&]{ return err + str(got) + " expected " + str(want); });
+            Rel got;
+            if(model.empty() && hz.asis_null != 0) c.excluded("as_is render of an adjactor without adjacencies under UBSan (reported once as finding)");
+            else
+            {
+              Graph g(RenderType::as_is, d);
+              c.check(read_graph(g, got, err) && got == want, "dynamic_graph.history render as_is", [&]{ return err + str(got) + " expected " + str(want); });
+            }
             Graph gt(RenderType::transpose, d);
             c.check(read_graph(gt, got, err) && got == ref_transpose(want), "dynamic_graph.history render transpose", [&]{ return err + str(got); });
             DynamicGraph dt(RenderType::transpose, d);
